@@ -16,7 +16,7 @@ ID = "C02"
 BUDGET = {"quick": 320, "thorough": 7000}
 SOFT = {"quick": 50.0, "thorough": 900.0}
 REQUIRED = ["outcome:success", "outcome:UndefinedGradingsError", "executions", "fresh-interpreter-runs",
-            "models-with-2+-hops", "bundle:order-or-numbering-variants"]
+            "models-with-2+-hops", "bundle:order-or-numbering-variants", "models-with-a-multigraded-direction", "history:write-stretch-write"]
 MIN_KEYS = 30
 RULE = (
     "one physical lattice model (<=18 blocks, non-conflicting chops: well-posed, under-specified, or equal counts "
@@ -62,6 +62,8 @@ def gen_case(ctx):
         "variants": variants,
         "sched_seeds": [rng.randrange(10**9) for _ in range(2 if ctx.tier == "quick" else 4)],
         "fresh": (2 if ctx.tier == "quick" else 4) if rng.random() < 0.08 else 0,
+        # history on the long-lived mesh: write, stretch the assembled vertices (size-based chops now give other counts), write again
+        "rewrite": {"factor": rng.choice([1.7, 0.55, 2.4]), "axis": rng.randrange(3)} if rng.random() < 0.35 else None,
     }
 
 
@@ -130,6 +132,8 @@ def run_case(ctx, case):
     hops, all_shared = max_hops(ref_case)
     if hops >= 2:
         ctx.count("models-with-2+-hops")
+    if c01.has_multigrading(ref_case):
+        ctx.count("models-with-a-multigraded-direction")
     nb, nface, nedge, nvert = lattice.contact_summary(ref_case)
     pattern = sorted(
         ("none" if c is None else c if isinstance(c, str) else "count") + f"x{len(fam[r])}" for r, c in fam_counts.items()
@@ -194,6 +198,9 @@ def run_case(ctx, case):
     ctx.sample({"blocks": [{"cell": b["cell"], "chops": b["chops"]} for b in base["blocks"]], "variants": case["variants"][:2],
                 "predicted": outcome, "observed": sorted(outcomes), "max_hops": hops})
 
+    if case.get("rewrite") and outcome == "success":
+        rewrite_history(ctx, case, want, cb)
+
     # fresh interpreters: the same script, other heap addresses
     if case.get("fresh"):
         vcase = lattice.realise(base, case["variants"][0]["order"], case["variants"][0]["perms"])
@@ -207,6 +214,48 @@ def run_case(ctx, case):
         if len({json.dumps(r) for r in results}) != 1:
             ctx.violation("schedule-dependent-bytes", "the same script run in fresh interpreters ended differently: "
                           + str([(r["outcome"], r["sha"]) for r in results]))
+
+
+def rewrite_history(ctx, case, want, cb):
+    """write; stretch the assembled mesh along one axis through its vertices; write again: the second propagation starts
+    from scratch - it terminates, completes, and every lattice edge still has one count (the chop's, where a count was given)"""
+    var = case["variants"][-1]
+    vcase = lattice.realise(case["base"], var["order"], var["perms"])
+    mesh, _ = lattice.build_mesh(vcase, cb)
+    path = util.tmpfile("c02r")
+    got, err = util.write_outcome(mesh, path, nblocks=len(vcase["blocks"]))
+    if got != "success":
+        util.rm(path)
+        return  # judged by the bundle above
+    rw = case["rewrite"]
+    for v in mesh.vertices:
+        p = [float(x) for x in v.position]
+        p[rw["axis"]] *= rw["factor"]
+        v.move_to(p)
+    got, err = util.write_outcome(mesh, path, nblocks=len(vcase["blocks"]))
+    ctx.evaluated()
+    ctx.count("history:write-stretch-write")
+    if got != "success":
+        util.rm(path)
+        mech = "propagation-does-not-terminate" if got == "Budget" else f"outcome:success->{got}"
+        ctx.violation(mech + ":second-write-after-vertices-moved", f"first write succeeded; after stretching axis {rw['axis']} by {rw['factor']} the second write ended with {got}: {err}")
+        return
+    parsed = foamdict.parse_blockmesh(util.read_text(path))
+    util.rm(path)
+    counts = {}
+    for blk, cblk in zip(parsed["blocks"], vcase["blocks"]):
+        for a in range(3):
+            for e in hexconv.AXIS_EDGES[a]:
+                pr = tuple(sorted((cblk["nodes"][e[0]], cblk["nodes"][e[1]])))
+                counts.setdefault(pr, set()).add(blk["counts"][a])
+    for pr, cs in counts.items():
+        w = want.get(pr)
+        if len(cs) != 1:
+            ctx.violation("edge-with-two-counts:second-write-after-vertices-moved", f"lattice edge {pr} written with counts {sorted(cs)}")
+            return
+        if isinstance(w, int) and cs != {w}:
+            ctx.violation("count-differs-from-chop:second-write-after-vertices-moved", f"lattice edge {pr}: chop count {w}, written {sorted(cs)}")
+            return
 
 
 def _first_diff(a, b):
